@@ -452,6 +452,16 @@ def _p7(ctx):
             okf = x.dom(x.expand_sites(fulls), p) if fulls else False
             ctx.add('P7c', 'T-DOM', ss, okh and oka and okf, 'send_or_park: the last send attempt and the task registration share one lock region; registration only after Full' if okh and oka and okf else
                     'send_or_park: registration under the lock=%s, send attempt inside the lock region=%s, only after Full=%s' % (okh, oka, okf), flavour=fl, where=g.where(p), sub='send_or_park')
+        # .. and the converse: a Full answered by the attempt under the lock always leaves the task registered (a
+        # registration that is skipped - "this handle parked already" - returns NotReady to a task nobody will wake)
+        fulls = {nid for (nid, si, rv) in x.aggs(r'TrySendError::Full$') if any(x.reaches(l, nid) for l in locks)}
+        pset = set(pushes)
+        # (the Full the function builds for its own answer *behind* the registration is not an attempt's answer)
+        attempts_full = [f_ for f_ in x.expand_sites(fulls) if not any(x.reaches(p_, f_) for p_ in pset)]
+        okm = bool(attempts_full) and all(x.must(f_, pset) for f_ in attempts_full)
+        ctx.add('P7c', 'T-MUST', ss, okm, 'send_or_park: every Full of the locked attempt registers the task' if okm else
+                'send_or_park can answer Full / NotReady after the attempt under the producer-list lock without registering the current task: whoever polled is never woken when room is made',
+                flavour=fl, sub='send_or_park-registers')
 
 
 def _roles(ctx, g, fn, label, p_seq, p_at, p_wc):
